@@ -67,7 +67,7 @@ func init() {
 				}
 				cases = append(cases, Case{ID: fmt.Sprintf("ratio-variable n=1 den=%s spaced", den), Pkg: "internal/interpreter", Fn: "ZZC13PortionVarRatio", Args: []string{"1", den, "11"}, Tag: "ratio-variable"})
 			}
-			rt := [][2]string{{"number", "num"}, {"monetary", "mon:USD"}, {"monetary", "mon:EUR/2"}, {"account", "acc:a"}, {"account", "acc:users:001"},
+			rt := [][2]string{{"number", "num"}, {"monetary", "mon:USD"}, {"monetary", "mon:EUR/2"}, {"monetary", "mon:US\"D"}, {"monetary", "mon:A\\B"}, {"monetary", "mon:R&D<1>"}, {"monetary", "mon:é"}, {"account", "acc:a"}, {"account", "acc:users:001"},
 				{"asset", "asset:1"}, {"asset", "asset:2"}, {"asset", "asset:3"}, {"string", "str:0"}, {"string", "str:1"}, {"string", "str:2"}, {"string", "str:3"}}
 			for _, p := range []string{"1/3", "0/1", "1/1", "50%", "12.5%", "1/2", "33/100", "7/8", "0.5%", "100%", "2/4", "010/100"} {
 				rt = append(rt, [2]string{"portion", "portion:" + p})
